@@ -297,14 +297,13 @@ Qed.
 
 (** the chain item at the head of a block hands the old buffer's geometry to the callback *)
 Lemma walk_chain oc h old us fuel olds :
-  let pos := hv_base h in
-  repr (hv_mem h) pos (enc_chain old :: map enc_user us) (pos + hv_len h) ->
-  0 <= pos -> hv_len h <= hv_cap h ->
+  repr (hv_mem h) (hv_base h) (enc_chain old :: map enc_user us) (hv_base h + hv_len h) ->
+  0 <= hv_base h -> hv_len h <= hv_cap h ->
   (length us < fuel)%nat ->
   oc (hv_base old) (hv_len old) (hv_cap old) = Ok olds ->
-  walk oc h (S fuel) pos (pos + hv_len h) = Ok (olds ++ us).
+  walk oc h (S fuel) (hv_base h) (hv_base h + hv_len h) = Ok (olds ++ us).
 Proof.
-  intros pos Hr Hp0 Hc Hf Hoc. unfold enc_chain in Hr.
+  set (pos := hv_base h). intros Hr Hp0 Hc Hf Hoc. unfold enc_chain in Hr.
   rewrite (walk_step _ _ _ _ _ _ _ _ Hr Hp0 ltac:(lia) ltac:(lia)).
   cbn [repr] in Hr. destruct Hr as (Hwf & Hp8 & Hvp & Hd & Hlt & Hr).
   pose proof (item_geometry pos _ _ Hwf) as (G1 & G2 & G3 & G4).
@@ -326,4 +325,196 @@ Proof.
   replace (dp + 8 + 8) with (dp + 16) in E3 by lia.
   rewrite E1, E2, E3, !dec_word_cells, Hoc. cbn [rbind].
   rewrite (walk_users oc h us fuel _ _ Hr); [reflexivity|lia|lia|lia|assumption].
+Qed.
+
+(* ------------------------------------------------------------------ *)
+(** * The queue invariant and the abstraction to the list of pending closures *)
+
+(** [chain_inv chain h ents]: the buffer [h], whose chained older buffers are [chain] (newest first),
+    holds exactly the closures [ents], oldest first. *)
+Fixpoint chain_inv (chain : list hvec) (h : hvec) (ents : list entry) : Prop :=
+  hv_wf h /\
+  match chain with
+  | [] =>
+      repr (hv_mem h) (hv_base h) (map enc_user ents) (hv_base h + hv_len h) /\ Forall entry_wf ents
+  | old :: rest =>
+      exists olds us, ents = olds ++ us /\ chain_inv rest old olds /\ hv_len old <> 0 /\
+        repr (hv_mem h) (hv_base h) (enc_chain old :: map enc_user us) (hv_base h + hv_len h) /\
+        Forall entry_wf us
+  end.
+
+Definition fq_inv (q : fq) (ents : list entry) : Prop := chain_inv (fq_chain q) (fq_cur q) ents.
+
+Lemma chain_inv_wf chain h ents : chain_inv chain h ents -> hv_wf h.
+Proof. destruct chain; cbn [chain_inv]; intros [H _]; exact H. Qed.
+
+Lemma chain_inv_entries_wf chain : forall h ents, chain_inv chain h ents -> Forall entry_wf ents.
+Proof.
+  induction chain as [|old rest IH]; intros h ents; cbn [chain_inv].
+  - intros (_ & _ & H). exact H.
+  - intros (_ & olds & us & -> & Hc & _ & _ & Hu). apply Forall_app. split; [eapply IH; eassumption|assumption].
+Qed.
+
+(** is_empty: len = 0 exactly when nothing is pending *)
+Lemma chain_inv_empty chain : forall h ents, chain_inv chain h ents -> (hv_len h = 0 <-> ents = []).
+Proof.
+  induction chain as [|old rest IH]; intros h ents; cbn [chain_inv].
+  - intros (_ & Hr & _). split.
+    + intros H0. apply repr_le in Hr. rewrite map_length in Hr. destruct ents; [reflexivity|cbn [length] in Hr; lia].
+    + intros ->. cbn [map repr] in Hr. lia.
+  - intros (_ & olds & us & -> & Hc & Hn & Hr & _). split.
+    + intros H0. apply repr_le in Hr. cbn [length] in Hr. lia.
+    + intros E. apply app_eq_nil in E. destruct E as [-> _]. apply IH in Hc. tauto.
+Qed.
+
+(** drain_for_each delivers exactly the pending closures, in order (chained buffers first) *)
+Lemma drain_spec chain : forall h ents, chain_inv chain h ents -> drain_hv chain h = Ok ents.
+Proof.
+  induction chain as [|old rest IH]; intros h ents; cbn [chain_inv drain_hv].
+  - intros ((Hb0 & Hb8 & Hlen & Hl8) & Hr & _).
+    apply walk_users; [exact Hr|lia|lia|lia|].
+    apply repr_le in Hr. rewrite map_length in Hr. lia.
+  - intros ((Hb0 & Hb8 & Hlen & Hl8) & olds & us & -> & Hc & Hn & Hr & _).
+    apply walk_chain with (old := old); [exact Hr|lia|lia| |].
+    + apply repr_le in Hr. cbn [length] in Hr. rewrite map_length in Hr. lia.
+    + rewrite !Z.eqb_refl. cbn [andb]. apply IH. exact Hc.
+Qed.
+
+Lemma fq_inv_new : fq_inv fq_new [].
+Proof.
+  unfold fq_inv, fq_new, hv_new. cbn [fq_chain fq_cur chain_inv hv_base hv_len hv_cap hv_mem map repr].
+  unfold hv_wf. cbn [hv_base hv_len hv_cap]. repeat split; try lia; auto.
+Qed.
+
+(** appending a closure to the current buffer *)
+Lemma chain_inv_write chain h ents e h' : chain_inv chain h ents -> entry_wf e ->
+  hv_write h (user_vt e) (user_cells e) = Ok h' -> chain_inv chain h' (ents ++ [e]).
+Proof.
+  intros Hc He Hw. pose proof (chain_inv_wf _ _ _ Hc) as Hwf.
+  pose proof (enc_user_wf e He) as Hvt.
+  destruct (hv_write_ok _ _ _ _ Hwf Hvt Hw) as (_ & _ & _ & Hwf' & _).
+  destruct chain as [|old rest]; cbn [chain_inv] in *.
+  - destruct Hc as (_ & Hr & Hf). split; [assumption|]. split.
+    + rewrite map_app. cbn [map]. eapply (hv_write_snoc h); eassumption.
+    + apply Forall_app; auto.
+  - destruct Hc as (_ & olds & us & -> & Hc & Hn & Hr & Hf). split; [assumption|].
+    exists olds, (us ++ [e]). split; [symmetry; apply app_assoc|]. split; [assumption|]. split; [assumption|]. split.
+    + rewrite map_app. cbn [map]. change (enc_chain old :: map enc_user us ++ [enc_user e])
+        with ((enc_chain old :: map enc_user us) ++ [enc_user e]).
+      eapply (hv_write_snoc h); eassumption.
+    + apply Forall_app; auto.
+Qed.
+
+Definition base_ok (b : Z) : Prop := 0 <= b /\ b mod 8 = 0.
+
+Lemma hv_with_size_ok size b h : hv_with_size size b = Ok h ->
+  h = {| hv_base := b; hv_len := 0; hv_cap := size; hv_mem := mem_empty |} /\ size <= LAYOUT_MAX.
+Proof.
+  unfold hv_with_size. destruct (size >? LAYOUT_MAX) eqn:E; [discriminate|].
+  intros H. injection H as <-. rewrite Z.gtb_ltb in E. apply Z.ltb_ge in E. auto.
+Qed.
+
+(** expand_storage keeps the pending closures and makes room for [req] *)
+Lemma expand_spec q ents req nb q1 : fq_inv q ents -> base_ok nb -> 0 <= req ->
+  expand_storage q req nb = Ok q1 ->
+  fq_inv q1 ents /\ hv_len (fq_cur q1) + req <= hv_cap (fq_cur q1) /\ hv_base (fq_cur q1) = nb /\
+  (exists j, 10 <= j /\ hv_cap (fq_cur q1) = 2 ^ j) /\ hv_cap (fq_cur q) < hv_cap (fq_cur q1).
+Proof.
+  intros Hinv (Hnb0 & Hnb8) Hreq. unfold expand_storage.
+  pose proof (chain_inv_wf _ _ _ Hinv) as (Hb0 & Hb8 & Hlen & Hl8).
+  destruct (hv_len (fq_cur q) =? 0) eqn:E0; cbn [negb].
+  - (* the old buffer is empty: it is dropped *)
+    apply Z.eqb_eq in E0. cbn [olift rbind].
+    destruct (expand_size _ _) as [size|] eqn:Es; cbn [olift rbind]; [|discriminate].
+    apply expand_size_some in Es; [|lia|lia]. destruct Es as (j & Hj & -> & Hc1 & Hc2 & _ & _).
+    destruct (hv_with_size _ _) as [new|] eqn:En; cbn [rbind]; [|discriminate].
+    apply hv_with_size_ok in En. destruct En as [-> _]. cbn [fq_cur hv_cap hv_len hv_base].
+    unfold csub. replace (0 <=? 2 ^ j) with true by (symmetry; apply Z.leb_le; lia). cbn [olift rbind].
+    destruct (2 ^ j - 0 <? req) eqn:Ea; [discriminate|]. apply Z.ltb_ge in Ea.
+    intros H. injection H as <-. cbn [fq_cur fq_chain hv_cap hv_len hv_base].
+    assert (ents = []) as -> by (eapply chain_inv_empty; eassumption).
+    split; [|split; [lia|split; [reflexivity|split; [eauto|lia]]]].
+    unfold fq_inv. cbn [fq_cur fq_chain chain_inv map repr hv_base hv_len hv_mem].
+    unfold hv_wf. cbn [hv_base hv_len hv_cap]. repeat split; try lia; auto.
+  - (* the old buffer becomes the first item of the new one *)
+    apply Z.eqb_neq in E0.
+    unfold cadd64 at 1. destruct (req + CHAIN_ITEM_SIZE <? _) eqn:Eo; cbn [olift rbind]; [|discriminate].
+    destruct (expand_size _ _) as [size|] eqn:Es; cbn [olift rbind]; [|discriminate].
+    change CHAIN_ITEM_SIZE with 32 in *.
+    apply expand_size_some in Es; [|lia|lia]. destruct Es as (j & Hj & -> & Hc1 & Hc2 & _ & _).
+    destruct (hv_with_size _ _) as [new|] eqn:En; cbn [rbind]; [|discriminate].
+    apply hv_with_size_ok in En. destruct En as [-> _].
+    change (push_req CHAIN_PAYLOAD 8) with (push_req (CHAIN_ITEM_SIZE - 8) 8). rewrite chain_req.
+    cbn [olift rbind hv_cap hv_len]. change CHAIN_ITEM_SIZE with 32.
+    unfold csub at 1. replace (0 <=? 2 ^ j) with true by (symmetry; apply Z.leb_le; lia). cbn [olift rbind].
+    destruct (32 >? 2 ^ j - 0) eqn:Ec; [discriminate|].
+    set (new := {| hv_base := nb; hv_len := 0; hv_cap := 2 ^ j; hv_mem := mem_empty |}).
+    destruct (hv_write new chain_vt (chain_cells (fq_cur q))) as [new'|] eqn:Ew; cbn [rbind]; [|discriminate].
+    assert (Hwfn : hv_wf new).
+    { unfold hv_wf, new. cbn [hv_base hv_len hv_cap]. repeat split; try lia; auto. }
+    destruct (hv_write_ok _ _ _ _ Hwfn (enc_chain_wf _) Ew) as (Eb & Ecap & El & Hwf' & Hr1 & _ & _).
+    cbn [fq_cur fq_chain]. unfold new in Eb, Ecap, El, Hr1. cbn [hv_base hv_len hv_cap] in Eb, Ecap, El, Hr1.
+    rewrite Z.add_0_r in El, Hr1.
+    assert (Hn32 : next_addr nb chain_vt = nb + 32).
+    { unfold next_addr, data_addr, chain_vt. cbn [vt_align vt_size]. change CHAIN_PAYLOAD with 24.
+      rewrite (up_id (nb + 8) 8) by lia. rewrite up_id by lia. lia. }
+    unfold csub. rewrite Ecap.
+    destruct (hv_len new' <=? 2 ^ j) eqn:El2; cbn [olift rbind]; [|discriminate].
+    destruct (2 ^ j - hv_len new' <? req) eqn:Ea; [discriminate|]. apply Z.ltb_ge in Ea.
+    intros H. injection H as <-. cbn [fq_cur fq_chain].
+    split; [|split; [lia|split; [assumption|split; [rewrite Ecap; eauto|lia]]]].
+    unfold fq_inv. cbn [fq_cur fq_chain chain_inv]. split; [assumption|].
+    exists ents, []. split; [symmetry; apply app_nil_r|]. split; [exact Hinv|]. split; [assumption|].
+    split; [|constructor]. cbn [map]. rewrite El, Eb. exact Hr1.
+Qed.
+
+(** push: the abstraction commutes *)
+Lemma push_spec q ents e nb q' : fq_inv q ents -> entry_wf e -> base_ok nb ->
+  fq_push q e nb = Ok q' -> fq_inv q' (ents ++ [e]).
+Proof.
+  intros Hinv He Hnb. unfold fq_push, fq_push_raw.
+  pose proof He as (Hs & (k & Hk & Ha) & Hl).
+  cbn [user_vt vt_size vt_align].
+  destruct (push_req _ _) as [req|] eqn:Er; cbn [olift rbind]; [|discriminate].
+  rewrite Ha in Er. apply push_req_some in Er; [|assumption|assumption]. destruct Er as [-> Hrlt].
+  assert (Hreq0 : 0 <= req_spec (e_size e) (2 ^ k)).
+  { unfold req_spec. pose proof (up_ge (Z.max 8 (2 ^ k) + e_size e) 8). lia. }
+  destruct (csub _ _) as [avail|]; cbn [olift rbind]; [|discriminate].
+  destruct (_ >? avail).
+  - destruct (expand_storage q _ nb) as [q1|] eqn:Ex; cbn [rbind]; [|discriminate].
+    destruct (expand_spec _ _ _ _ _ Hinv Hnb Hreq0 Ex) as (Hinv1 & _).
+    destruct (csub _ _) as [avail1|]; cbn [olift rbind]; [|discriminate].
+    destruct (_ >? avail1); [discriminate|]. cbn [rbind].
+    destruct (hv_write _ _ _) as [h'|] eqn:Ew; cbn [rbind]; [|discriminate].
+    intros H. injection H as <-. unfold fq_inv. cbn [fq_cur fq_chain].
+    eapply chain_inv_write; eassumption.
+  - cbn [rbind].
+    destruct (hv_write _ _ _) as [h'|] eqn:Ew; cbn [rbind]; [|discriminate].
+    intros H. injection H as <-. unfold fq_inv. cbn [fq_cur fq_chain].
+    eapply chain_inv_write; eassumption.
+Qed.
+
+(** execute: delivers the pending closures in push order; afterwards the same allocation, empty *)
+Lemma execute_spec q ents : fq_inv q ents ->
+  exists q', fq_execute q = Ok (ents, q') /\ fq_inv q' [] /\
+    hv_base (fq_cur q') = hv_base (fq_cur q) /\ hv_cap (fq_cur q') = hv_cap (fq_cur q) /\ hv_len (fq_cur q') = 0.
+Proof.
+  intros Hinv. unfold fq_execute. rewrite (drain_spec _ _ _ Hinv). cbn [rbind].
+  eexists. split; [reflexivity|]. unfold hv_reset at 2 3 4. cbn [fq_cur hv_base hv_cap hv_len].
+  split; [|auto].
+  pose proof (chain_inv_wf _ _ _ Hinv) as (Hb0 & Hb8 & Hlen & Hl8).
+  unfold fq_inv. cbn [fq_cur fq_chain chain_inv hv_reset hv_base hv_len hv_mem map repr].
+  unfold hv_wf, hv_reset. cbn [hv_base hv_len hv_cap]. repeat split; try lia; auto.
+Qed.
+
+Lemma drop_spec q ents : fq_inv q ents -> fq_drop q = Ok ents.
+Proof. intros Hinv. unfold fq_drop. apply drain_spec. exact Hinv. Qed.
+
+Lemma is_empty_spec q ents : fq_inv q ents -> fq_is_empty q = bq_is_empty ents.
+Proof.
+  intros Hinv. unfold fq_is_empty, bq_is_empty.
+  pose proof (chain_inv_empty _ _ _ Hinv) as H.
+  destruct ents as [|e ents].
+  - apply Z.eqb_eq. apply H. reflexivity.
+  - apply Z.eqb_neq. intros E. apply H in E. discriminate.
 Qed.
